@@ -206,40 +206,56 @@ def analyze_entry(built, name, boxes=None, rnd=None, refine_depth=2, want_paths=
 
 
 def dep_levels(an, al):
-    """symbol sets at increasing dependency distance from the faulting operation, ending with the parameters"""
+    """candidate symbol sets for value partitioning, taken from the backward slice of the faulting operation:
+    first the 'first generation' symbols (opaque non-linear results computed directly from parameters),
+    then the parameters themselves, then the remaining intermediate levels (nearest first)."""
     src = getattr(al, "src", None)
     st = al.state
     start = set(src.t) if src is not None else set()
     if not start:
         return []
+    is_param = lambda s: isinstance(s, str) and re.fullmatch(r"p\d+", s) is not None
     levels = []
     seen = set()
     cur = start
-    for _ in range(12):
+    for _ in range(16):
         cur = {s for s in cur if s not in seen}
         if not cur:
             break
         seen |= cur
-        wide = set()
-        for s in cur:
-            b = st.bounds.get(s)
-            if b is not None and b[1] - b[0] > 4096:
-                wide.add(s)
-        if wide and len(wide) <= 2:
-            levels.append(frozenset(wide))
+        levels.append(set(cur))
         nxt = set()
         for s in cur:
             nxt |= an.symdeps.get(s, set())
         cur = nxt
-    params = frozenset(s for s in seen if isinstance(s, str) and re.fullmatch(r"p\d+", s))
+
+    def wide(ss):
+        out = set()
+        for s in ss:
+            b = st.bounds.get(s)
+            if b is not None and b[1] - b[0] > 4096:
+                out.add(s)
+        return out
+    params = frozenset(wide(s for s in seen if is_param(s)))
+    firstgen = set()
+    for s in seen:
+        if is_param(s):
+            continue
+        d = an.symdeps.get(s, set())
+        # depends only on parameters and on narrow symbols
+        if d and all(is_param(x) or x not in wide([x]) or all(is_param(y) for y in an.symdeps.get(x, ())) for x in d):
+            if any(is_param(x) for x in d) or all(all(is_param(y) for y in an.symdeps.get(x, ())) for x in d):
+                firstgen.add(s)
     out = []
-    for l in levels:
-        if l not in out:
-            out.append(l)
-    # nearest level first; parameters last
-    out = [l for l in out if l != params]
-    if params:
+    fg = frozenset(wide(firstgen))
+    if fg and len(fg) <= 2:
+        out.append(fg)
+    if params and len(params) <= 2:
         out.append(params)
+    for l in levels:
+        w = frozenset(wide(l))
+        if w and len(w) <= 2 and w not in out:
+            out.append(w)
     return out
 
 
@@ -250,34 +266,42 @@ def refine(an, boxes, pending, rnd, stats):
     lines = {}
     for al, w in pending:
         lines.setdefault(w.line, []).append(al)
-    tried_levels = {}
+    tried = {}
+    good = set()
+    budget_s = float(os.environ.get("FX_REFINE_BUDGET", "120"))
+    t0 = time.time()
+    leftovers = {}
     for ln, als in lines.items():
         if ln in result:
             continue
+        # the symbols of different paths are alternatives (one path mints one of them), so the k-th candidate
+        # sets of all alarm states of this line are merged into one partition request
+        per = [dep_levels(an, al) for al in als]
         levels = []
-        for al in als[:3]:
-            for l in dep_levels(an, al):
-                if l not in levels:
-                    levels.append(l)
-        status = None
-        for lv in levels[:6]:
-            key = lv
-            if key not in tried_levels:
+        for k in range(max((len(x) for x in per), default=0)):
+            u = frozenset().union(*[x[k] for x in per if len(x) > k])
+            if u and u not in levels:
+                levels.append(u)
+        levels = levels[:5]
+        # try first the candidate sets that already discharged another line
+        levels.sort(key=lambda l: 0 if l in good else 1)
+        for lv in levels:
+            if time.time() - t0 > budget_s:
+                break
+            if lv not in tried:
                 an.partition = {s: 1 for s in lv}
                 try:
                     r = an.run(P.init_state(an.fn, boxes))
                 except Broken:
-                    an.partition = {}
-                    tried_levels[key] = None
-                    continue
+                    r = None
                 an.partition = {}
                 stats["cells"] = stats.get("cells", 1) + 1
-                stats["steps"] = stats.get("steps", 0) + r.stats.get("steps", 0)
-                tried_levels[key] = r
-            r = tried_levels[key]
+                if r is not None:
+                    stats["steps"] = stats.get("steps", 0) + r.stats.get("steps", 0)
+                tried[lv] = r
+            r = tried[lv]
             if r is None:
                 continue
-            # every still-pending line that this run does not raise is discharged by it
             raised = {}
             for a in r.alarms:
                 raised.setdefault(a.line, []).append(a)
@@ -285,21 +309,20 @@ def refine(an, boxes, pending, rnd, stats):
                 if ln2 not in result and ln2 not in raised:
                     result[ln2] = ("discharged", "{" + ",".join(sorted(str(x)[:10] for x in lv)) + "}")
             if ln in result:
-                status = result[ln]
+                good.add(lv)
                 break
-            # try witnesses inside the (now much smaller) cells
-            got = None
-            for a in raised[ln][:40]:
-                wit, _ = find_witness(an, a, rnd, 400)
-                if wit is not None:
-                    got = wit
-                    break
-            if got is not None:
-                result[ln] = ("violation", got)
-                status = result[ln]
+            leftovers[ln] = raised[ln]
+    # lines that no partition discharged: look for a witness inside the smallest cells seen
+    for ln in lines:
+        if ln in result:
+            continue
+        got = None
+        for a in (leftovers.get(ln) or [])[:12]:
+            wit, _ = find_witness(an, a, rnd, 300)
+            if wit is not None:
+                got = wit
                 break
-        if status is None and ln not in result:
-            result[ln] = None
+        result[ln] = ("violation", got) if got is not None else None
     return result
 
 
@@ -320,6 +343,8 @@ def _work(args):
         err = None
     except Broken as e:
         alarms, stats, err = [], {}, str(e)
+    except Infeasible:
+        alarms, stats, err = [], {}, "no feasible path at all (precondition box empty?)"
     except RecursionError as e:
         alarms, stats, err = [], {}, "recursion: %s" % e
     stats["wall_s"] = time.time() - t0
